@@ -77,7 +77,7 @@ def demangle(names):
         return {n: n for n in names}
 
 
-def report(mod, summaries, limit=60):
+def report(mod, summaries, limit=250):
     cov = {}
     for s in summaries:
         for fn, labels in (s.get('cov') or {}).items():
